@@ -201,6 +201,21 @@ func (g *gatedEngine) rcvErrs(cl *h.Cluster) int64 {
 	return t
 }
 
+// recentReset reports whether a stream-failure event was seen on the cluster within d.
+func (g *gatedEngine) recentReset(cl *h.Cluster, d time.Duration) bool {
+	if g.e.Hooks == nil {
+		return false
+	}
+	for _, id := range cl.IDs {
+		for _, p := range []string{"rcv.err", "wat.beforeCancel", "con.broken"} {
+			if t := g.e.Hooks.Last(p, id); !t.IsZero() && time.Since(t) < d {
+				return true
+			}
+		}
+	}
+	return false
+}
+
 func (g *gatedEngine) clusterKey(key, n int) (*h.Cluster, error) {
 	g.mu.Lock()
 	defer g.mu.Unlock()
@@ -236,7 +251,7 @@ func (g *gatedEngine) background(c *h.Cluster) {
 			i := rng.Intn(len(c.IDs))
 			tok := h.NewToken()
 			req := &puppet.Req{Call: tok, Seq: tok, Kind: 98}
-			ctx, cancel := context.WithTimeout(context.Background(), time.Second)
+			ctx, cancel := context.WithTimeout(context.Background(), 30*time.Second)
 			if k%3 == 0 {
 				c.Node(i).Uni(context.Background(), req, gorums.WithNoSendWaiting())
 			} else {
@@ -343,6 +358,11 @@ func (g *gatedEngine) run(sc GScenario, slot int) {
 		return
 	}
 	defer g.release(cl)
+	// a stream of this cluster was reset just before this case (by the context end of the previous case): let its
+	// consequences (connection errors for requests written to the dying stream) pass before starting
+	for k := 0; k < 40 && g.recentReset(cl, 150*time.Millisecond); k++ {
+		time.Sleep(10 * time.Millisecond)
+	}
 	rcvErr0 := g.rcvErrs(cl)
 	async := strings.HasPrefix(sc.Variant, "Async")
 	token := h.NewToken()
@@ -520,6 +540,17 @@ func (g *gatedEngine) run(sc GScenario, slot int) {
 				case <-task.Done:
 					break wait
 				case <-deadline:
+					if g.rcvErrs(cl) != rcvErr0 {
+						// the stream was reset: the reply was lost with it and gorums reported a connection error for the node instead
+						R.Count("disturbed_by_stream_reset", 1)
+						ctx.end(context.Canceled)
+						for _, p := range plans {
+							if p != nil {
+								p.Open()
+							}
+						}
+						return
+					}
 					hi := h.Await(task, 0)
 					if hi.Verdict == h.Hung {
 						hangViolation("released reply never shown to the quorum function", hi)
@@ -639,7 +670,16 @@ func (g *gatedEngine) run(sc GScenario, slot int) {
 	var arrival []uint32
 	prev := map[uint32]bool{}
 	det := func(extra string) map[string]any {
-		return map[string]any{"scenario": sc, "invocations": invs, "error": fmt.Sprint(out.Err), "note": extra}
+		m := map[string]any{"scenario": sc, "invocations": invs, "error": fmt.Sprint(out.Err), "note": extra}
+		if e.Hooks != nil {
+			var hc []string
+			for i, id := range cl.IDs {
+				hc = append(hc, fmt.Sprintf("node %d: rcv.err=%d wat.beforeCancel=%d con.broken=%d rec.locked=%d lastErr=%v", id, e.Hooks.Count("rcv.err", id), e.Hooks.Count("wat.beforeCancel", id),
+					e.Hooks.Count("con.broken", id), e.Hooks.Count("rec.locked", id), cl.Node(i).LastErr()))
+			}
+			m["channel_events"] = hc
+		}
+		return m
 	}
 	replyNodes := map[uint32]bool{}
 	for i := 0; i < sc.N; i++ {
